@@ -126,6 +126,7 @@ fn run_l<L: Language>(c: &OrderCase, obs: &mut Obs) -> Result<(), String> {
 
 fn strategy(lang: LangId, max_ops: usize) -> BoxedStrategy<OrderCase> {
     let mut cfg = HistCfg::for_lang(lang);
+    cfg.namings = Naming::diverse();
     cfg.max_ops = max_ops;
     (hist_strategy(cfg), proptest::collection::vec(any::<u16>(), 0..40), proptest::collection::vec(any::<bool>(), 0..16))
         .prop_map(|(hist, perm, flips)| OrderCase { hist, perm, flips })
